@@ -1,5 +1,94 @@
-"""Operand-extraction comparison for C06/C07: reference operand decode (vf/ref/sem.py) vs from_bitarray attributes."""
+"""Operand-extraction comparison for C06/C07: the reference operand decode (decode stage of vf/ref/sem_*.py) vs the
+attributes of the object armulator's from_bitarray returns, under several processor states (flags / IT position)."""
+from vf import target, gen, diff, known
+from vf.props import decode_common as dc
+from vf.ref import step as rstep  # noqa: F401  (loads all semantics)
+from vf.ref.core import REG
+from vf.ref.machine import Machine, Unpred, Undef, NotImpl, Skip
+
+ALIAS = {'round': 'round_'}
+# known findings visible at operand level: (row, operand) -> (key, exact quirk prediction)
+KNOWN_OPERANDS = {('CBZ_T1', 'imm32'): ('cbz-scale', lambda want, got: got == 2 * want),
+                  ('PUSH_T2', 'unaligned_allowed'): ('push-t2-unaligned', lambda want, got: want == 0 and got == 1)}
+SKIP_KEYS = {'op', 'size', 'signed', 'kind', 'pfx', 'sub', 'double', 'unsigned', 'load', 'to_thumb', 'unpriv'}
+NSTATES = 3
+
+
+def norm(v):
+    if isinstance(v, bool):
+        return int(v)
+    if hasattr(v, 'name') and hasattr(v, 'value') and not isinstance(v, int):
+        return v.name
+    return v
 
 
 def compare(acc, spec, cpu, w, row, rng, full):
-    return
+    h = REG.get(row.name)
+    if h is None:
+        acc.cls('operands:no-reference-decode')
+        return
+    cfg = diff.full_cfg(None)
+    for si in range(NSTATES):
+        # processor state the decode may legitimately depend on: APSR.C, IT position (Thumb); everything else random
+        flags = rng.getrandbits(4)
+        it = rng.choice(gen.IT_STATES) if (spec.thumb and rng.random() < 0.5) else 0
+        cpsr = gen.cpsr_value(nzcvq=flags << 1 | rng.getrandbits(1), ge=rng.getrandbits(4), it=it, t=1 if spec.thumb else 0,
+                              m=rng.choice((0b10000, 0b10011, 0b11111, 0b10010)))
+        cpu.registers.cpsr.value = cpsr
+        for n in range(8):
+            cpu.registers._R[target.RNAMES['R%dusr' % n]] = rng.getrandbits(32)
+        M = Machine({'cpsr': cpsr, 'sctlr': 0, 'scr': 0, 'R.PC': 0}, [], cfg)
+        M.word = w
+        f = dict(row.extract(w))
+        f['_w'] = w
+        f['_row'] = row.name
+        try:
+            if (w & row.sbz) or (~w & row.sbo):
+                raise Unpred('sbz/sbo')
+            ops = h[0](M, f)
+            ref = 'ok'
+        except Unpred:
+            ref = 'unpred'
+        except Undef:
+            ref = 'undef'
+        except (NotImpl, Skip):
+            ref = 'skip'
+        name, obj = dc.full_outcome(spec.decoder, w, cpu, spec.nbits)
+        acc.evals += 1
+        if ref in ('unpred', 'skip'):
+            acc.cls('operands:' + ref)
+            if name.startswith('EXC:') and name not in ('EXC:UndefinedInstructionException', 'EXC:NotImplemented'):
+                acc.violation('%s:operands:%s:host-error' % (spec.prop, row.name), {'word': w, 'nbits': spec.nbits, 'cpsr': cpsr}, {'outcome': name})
+            continue
+        if ref == 'undef':
+            if not (name in dc.UND or name.startswith('UNPRED:')):
+                acc.violation('%s:operands:%s:should-be-undefined' % (spec.prop, row.name), {'word': w, 'nbits': spec.nbits, 'cpsr': cpsr}, {'outcome': name})
+            continue
+        acc.cls('operands:compared')
+        if obj is None:
+            acc.violation('%s:operands:%s:valid-encoding-rejected' % (spec.prop, row.name), {'word': w, 'nbits': spec.nbits, 'cpsr': cpsr},
+                          {'outcome': name, 'reference_operands': {k: norm(v) for k, v in ops.items()}})
+            return
+        bad = {}
+        for k, v in ops.items():
+            if k in SKIP_KEYS or v is None:
+                continue
+            ak = ALIAS.get(k, k)
+            if not hasattr(obj, ak):
+                continue
+            got = norm(getattr(obj, ak))
+            want = norm(v)
+            if isinstance(got, str) != isinstance(want, str):
+                continue
+            if k == 'imm32' and isinstance(got, int) and isinstance(want, int):
+                got, want = got & 0xFFFFFFFF, want & 0xFFFFFFFF        # the value of a sign-extended immediate, whatever its Python representation
+            if got != want:
+                q = KNOWN_OPERANDS.get((row.name, k))
+                if q and q[0] in known.listed(spec.prop) and q[1](want, got):
+                    acc.known_hit(q[0])
+                    continue
+                bad[k] = (want, got)
+        if bad:
+            acc.violation('%s:operands:%s:%s' % (spec.prop, row.name, '+'.join(sorted(bad))), {'word': w, 'nbits': spec.nbits, 'cpsr': cpsr},
+                          {'operands(expected,observed)': bad, 'class': name})
+            return
